@@ -900,11 +900,20 @@ fn case_file<P: Prop>(
     }
 }
 
+/// A simulated run that never returns cannot satisfy any of the properties (each of them is stated
+/// over the results of API calls), so a hang is reported as a violation of the component's property.
 fn hang_check(comp: &str) -> Option<&'static str> {
     match comp {
         "C01" => Some("C01.hang"),
+        "C02" => Some("C02.hang"),
         "C04" => Some("C04.hang"),
-        "C09p" => Some("C09.hang"),
+        "C08" => Some("C08.hang"),
+        "C09p" | "C09r" => Some("C09.hang"),
+        "C10" => Some("C10.hang"),
+        "C11" => Some("C11.hang"),
+        "C13" => Some("C13.hang"),
+        "C14r" | "C14w" => Some("C14.hang"),
+        "C16" => Some("C16.hang"),
         _ => None,
     }
 }
